@@ -101,8 +101,9 @@ Proof. exact len_ok. Qed.
 
 (* Faults: if any request of any operation, in any state, is answered with a non-2xx status and a
    CouchDB error document, with a 200 whose body is not JSON, or not at all, then the server state is
-   unchanged and the operation ends in KeyError / CouchDBConnectionError / CouchDBResponseError /
-   CouchDBServerError / CouchDBConflictError - never in success.  The only non-error outcomes are those
+   unchanged and the operation ends in CouchDBConnectionError / CouchDBResponseError / CouchDBServerError /
+   CouchDBConflictError - never in success - or in KeyError, but that only where the server said so
+   (`documented`: a 404; a 409 answering add's PUT; a HEAD answer without revision in a plain discard).  The only non-error outcomes are those
    of `in`: a 404 is (indistinguishably) "not contained", and a HEAD reply has no body that could be
    non-JSON. *)
 Theorem C16_fault_total : forall c w o k ft, fault_ok ft ->
